@@ -48,7 +48,7 @@ def handleCompat (probed dict : String) (res : List String) : String :=
 def cfgOf (mode : VMode) : Cfg :=
   { odd := .accept, mode := mode, isXs := stdIsXs, parseOk := stdParseOk }
 
-def handleDs (enc declared mode bytes : String) (rest : List String) : String :=
+def handleDs (enc declared mode cut bytes : String) (rest : List String) : String :=
   match syntaxOf enc, syntaxOf declared, modeOf mode, unhex bytes, splitBar rest with
   | some ts, some dts, some vm, some bs, [[], flex, fixed] =>
     let first := skipStray 64 bs
@@ -72,7 +72,10 @@ def handleDs (enc declared mode bytes : String) (rest : List String) : String :=
       if ts = .explicitBE then "be"
       else if inFffe then "out-fffe"
       else if ts = .explicitLE then (if firstClass == "nocode" then "out-badvr" else "in")
-      else (if unambiguous stdDictV first then "in" else "out-ambiguous")
+      else if !unambiguous stdDictV first then "out-ambiguous"
+      -- an incomplete stream may end inside a pixel data sequence, where the implicit decoder's error
+      -- kind differs (see `normOut`): not a data set, outside the statement
+      else if cut == "1" then "out-cut" else "in"
     -- 1. the property on the implementation's two outputs
     if (scope == "in" || scope == "be") && flex ≠ fixed then
       let cls := if ts = .explicitLE then
@@ -97,7 +100,7 @@ def handleDs (enc declared mode bytes : String) (rest : List String) : String :=
 def handle (line : String) : String :=
   match tokens line with
   | "compat" :: p :: d :: res => handleCompat p d res
-  | "ds" :: enc :: declared :: mode :: bytes :: rest => handleDs enc declared mode bytes rest
+  | "ds" :: enc :: declared :: mode :: cut :: bytes :: rest => handleDs enc declared mode cut bytes rest
   | _ => "BAD-LINE"
 
 def main : IO Unit := Driver.run handle
